@@ -241,7 +241,11 @@ func (t *Object) Resolve(field *Field, args map[string]interface{}) (result inte
 			result = &list
 		}
 	case interfacesStr:
-		result = t.Interfaces
+		// A list that resolves its own members, a plain slice would be
+		// handed to an application's AnyResolver.
+		list := newTypeList()
+		list.add(t.Interfaces...)
+		result = list
 	case possibleTypesStr, enumValuesStr, inputFieldsStr, ofTypeStr:
 		// nil result
 	}
